@@ -1,0 +1,92 @@
+//go:build verif
+
+package blockstream
+
+import (
+	"fmt"
+	"sync"
+	"sync/atomic"
+	"testing"
+	"time"
+
+	pbbstream "github.com/streamingfast/bstream/pb/sf/bstream/v1"
+	"google.golang.org/protobuf/types/known/timestamppb"
+)
+
+// TestVerifFanOutRace is meant for `go test -race -tags verif -run TestVerifFanOutRace ./blockstream/`:
+// one producer calling PushBlock, clients subscribing / consuming at different speeds /
+// unsubscribing concurrently, and a goroutine polling Ready().  It also checks, per subscriber,
+// that what was received is a contiguous run of the pushed sequence after the burst, and that
+// Ready() never goes back to false.
+func TestVerifFanOutRace(t *testing.T) {
+	ts := timestamppb.New(time.Unix(1600000000, 0))
+	const n = 3000
+	s := NewUnmanagedServer(ServerOptionWithBuffer(5))
+	var pushed int64
+	var done int32
+	var wg sync.WaitGroup
+
+	wg.Add(1)
+	go func() { // Ready() poller
+		defer wg.Done()
+		seen := false
+		for atomic.LoadInt32(&done) == 0 {
+			r := s.Ready()
+			if seen && !r {
+				t.Errorf("Ready() went back to false")
+				return
+			}
+			seen = seen || r
+		}
+	}()
+
+	for c := 0; c < 8; c++ {
+		wg.Add(1)
+		go func(c int) {
+			defer wg.Done()
+			for atomic.LoadInt64(&pushed) < int64(c*300) {
+				time.Sleep(10 * time.Microsecond)
+			}
+			sub := s.subscribe(c-1, fmt.Sprint("c", c)) // burst -1 .. 6
+			if sub == nil {
+				t.Errorf("nil subscription")
+				return
+			}
+			var got []uint64
+			for len(got) < 400+c*200 {
+				select {
+				case blk, ok := <-sub.incomingBlock:
+					if !ok {
+						goto out
+					}
+					got = append(got, blk.Number)
+					if c%3 == 0 {
+						time.Sleep(20 * time.Microsecond) // slow reader: may overflow
+					}
+				case <-time.After(200 * time.Millisecond):
+					goto out
+				}
+			}
+		out:
+			s.unsubscribe(sub)
+			for i := 1; i < len(got); i++ {
+				if got[i] != got[i-1]+1 {
+					t.Errorf("client %d: gap %d -> %d", c, got[i-1], got[i])
+					return
+				}
+			}
+		}(c)
+	}
+
+	for i := 1; i <= n; i++ {
+		if err := s.PushBlock(&pbbstream.Block{Id: fmt.Sprintf("%08x", i), Number: uint64(i), Timestamp: ts}); err != nil {
+			t.Fatal(err)
+		}
+		atomic.AddInt64(&pushed, 1)
+		if i%16 == 0 {
+			time.Sleep(5 * time.Microsecond)
+		}
+	}
+	atomic.StoreInt32(&done, 1)
+	wg.Wait()
+}
